@@ -1350,7 +1350,7 @@ def _tb_tempfile_in(I, a, d):
 @T.path("tempfile::Builder::tempfile")
 def _tb_tempfile(I, a, d):
     b = peel(a[0])
-    return _fs.wrap(I, lambda: _tb_make(I, b, SBytes(b"/tmp")))
+    return _fs.wrap(I, lambda: _tb_make(I, b, SBytes(b"/root/systmp")))
 
 
 @T.path("tempfile::NamedTempFile::into_temp_path")
@@ -1565,3 +1565,66 @@ def _reg_more_async_fs(P):
 
 _reg_more_async_fs("async_std")
 _reg_more_async_fs("tokio")
+
+
+# ---------------------------------------------------------------------------
+# integer conversions: TryFrom / TryInto
+
+_INT_BITS = {"u8": 8, "u16": 16, "u32": 32, "u64": 64, "u128": 128, "usize": 64, "i8": 8, "i16": 16, "i32": 32, "i64": 64, "i128": 128, "isize": 64}
+
+
+def _try_int(I, v, to, frm=None):
+    if to not in _INT_BITS or to.startswith("i"):
+        raise Inconclusive("TryFrom into %s" % to)
+    tb = _INT_BITS[to]
+    v = peel(v)
+    if isinstance(v, bool):
+        raise Inconclusive("TryFrom<bool>")
+    if isinstance(v, int):
+        if 0 <= v < (1 << tb):
+            return OK(v)
+        return ERR(Agg("struct", "TryFromIntError", []))
+    if is_sym(v):
+        fb = v.size()
+        if fb <= tb:
+            return OK(z3.ZeroExt(tb - fb, v) if fb < tb else v)
+        if I.w.branch(z3.ULE(v, z3.BitVecVal((1 << tb) - 1, fb)), "try_from-fits"):
+            return OK(z3.Extract(tb - 1, 0, v))
+        return ERR(Agg("struct", "TryFromIntError", []))
+    raise Inconclusive("TryFrom of %r" % (v,))
+
+
+@T.trait("TryFrom", "try_from")
+def _try_from(I, a, d):
+    from .core import base_type_name
+    to = base_type_name(d.get("self") or "")[-1] if d.get("self") else ""
+    return _try_int(I, a[0], to)
+
+
+@T.trait("TryInto", "try_into")
+def _try_into(I, a, d):
+    from .core import generic_args, base_type_name
+    targ = generic_args(d.get("trait") or "")
+    to = base_type_name(targ[0])[-1] if targ else ""
+    return _try_int(I, a[0], to)
+
+
+T.consts["PhantomData"] = lambda I: Agg("struct", "PhantomData", [])
+
+
+@T.trait("From", "from", r"^(u16|u32|u64|u128|usize)$")
+def _int_from(I, a, d):
+    """Lossless widening (u64::from(u32), u128::from(u64) ...)."""
+    from .core import base_type_name
+    to = base_type_name(d.get("self") or "")[-1]
+    wd = {"u16": 16, "u32": 32, "u64": 64, "u128": 128, "usize": 64}[to]
+    v = peel(a[0])
+    if isinstance(v, bool):
+        return int(v)
+    if isinstance(v, int):
+        return v
+    if is_sym(v):
+        if z3.is_bool(v):
+            return z3.If(v, z3.BitVecVal(1, wd), z3.BitVecVal(0, wd))
+        return z3.ZeroExt(wd - v.size(), v) if v.size() < wd else v
+    raise Inconclusive("From<%r> for %s" % (v, to))
